@@ -636,6 +636,10 @@ class DirectoryRecord:
             raise pycdlibexception.PyCdlibInternalError('Directory Record already initialized')
 
         self._new(vd, b'\x01', parent, seqnum, True, log_block_size, xa, date_seconds)
+        # A dotdot record describes the directory above the one it lives in,
+        # which may already have grown beyond one logical block.
+        if parent.parent is not None:
+            self.data_length = parent.parent.data_length
         if rock_ridge:
             self._rr_new(rock_ridge, b'', b'', False, False, rr_relocated_parent,
                          file_mode, date_seconds)
